@@ -712,10 +712,13 @@ def execute(beh, kind='known'):
             ev = {'ev': 'RenderTable', 'grp': grp, 'fmt': call['fmt']}
             before = state['deep'][grp]
             try:
+                # the documented default format is requested the way callers (WriteCSV, the log output) request it:
+                # by leaving the argument out, so a format that sticks from an earlier rendering is seen
+                fargs = () if call['fmt'] == DEFAULT_FMT else (call['fmt'],)
                 if grp == 'main':
-                    text = m.EquationSolver.GenerateCSVtext(call['fmt'])
+                    text = m.EquationSolver.GenerateCSVtext(*fargs)
                 else:
-                    text = w.holders()[grp].GenerateCSVtext(call['fmt'])
+                    text = w.holders()[grp].GenerateCSVtext(*fargs)
                 if not isinstance(text, str):
                     raise TypeError('returned ' + type(text).__name__)
             except Exception as e:
@@ -953,6 +956,7 @@ def behaviours_of(rep, cfg, seen, res):
     return behs
 
 
+DEFAULT_FMT = '%.5g'     # = the default of GenerateCSVtext in the documentation and in Results.tla
 QUICK_CFGS = ['MC_Results_quick.cfg', 'MC_Results_quick2.cfg', 'MC_Results_ragged.cfg', 'MC_Results_miss.cfg',
               'MC_Results_edge.cfg', 'MC_Results_horizon.cfg', 'MC_Results_names.cfg', 'MC_Results_formats.cfg',
               'MC_Results_kaxis.cfg', 'MC_Results_case.cfg']
